@@ -81,4 +81,41 @@ def parseAcc (dec : Bytes → Dec) : Nat → Bytes → Bytes → Bytes
 
 def parseFast (dec : Bytes → Dec) (s : Bytes) : Bytes := parseAcc dec s.length s []
 
+/-! ### Tail-recursive evaluation of `UnicodeFormat` / `Utf16Format` for outputs of several MiB
+(`Proof/C07Fast.lean`: `= (…FormatAux …).map (acc.reverse ++ ·)`). -/
+
+def unicodeFormatAcc : Nat → Bytes → Bytes → Option Bytes
+  | _, [], acc => some acc.reverse
+  | 0, _ :: _, _ => none
+  | fuel + 1, bt :: rest, acc =>
+    if bt < 0x80 then
+      match escU bt with
+      | none => none
+      | some d => unicodeFormatAcc fuel rest (d.reverse ++ acc)
+    else
+      let (c, size) := Utf8.decodeRune (bt :: rest)
+      if c = Utf8.runeError then
+        unicodeFormatAcc fuel ((bt :: rest).drop size) ((92 :: 85 :: lit0000FFFD).reverse ++ acc)
+      else
+        match escU c.toNat with
+        | none => none
+        | some d => unicodeFormatAcc fuel ((bt :: rest).drop size) (d.reverse ++ acc)
+
+def utf16FormatAcc : Nat → Bytes → Bytes → Option Bytes
+  | _, [], acc => some acc.reverse
+  | 0, _ :: _, _ => none
+  | fuel + 1, bt :: rest, acc =>
+    if bt < 0x80 then
+      match escu bt with
+      | none => none
+      | some d => utf16FormatAcc fuel rest (d.reverse ++ acc)
+    else
+      let (c, size) := Utf8.decodeRune (bt :: rest)
+      match utf16FormatRune c with
+      | none => none
+      | some d => utf16FormatAcc fuel ((bt :: rest).drop size) (d.reverse ++ acc)
+
+def unicodeFormatFast (s : Bytes) : Option Bytes := unicodeFormatAcc s.length s []
+def utf16FormatFast (s : Bytes) : Option Bytes := utf16FormatAcc s.length s []
+
 end Golib.C07
